@@ -1345,4 +1345,66 @@ func c12IsValuable(c *core.Ctx) {
 		}
 	}
 	c.Floor("IsValuable/three-way-comparisons", n, 2)
+
+	// a log judged "no change" is dropped from the published logs, so the judgement compares the two values whole: where OldVal and NewVal
+	// meet in one comparison, each side is the (type-asserted) value itself — not a field, an element or the result of a function of it
+	// (two different values with equal projections would be dropped although redo has an effect)
+	oldF, newF := c.FieldVar("chain/types.ChangeLog", "OldVal"), c.FieldVar("chain/types.ChangeLog", "NewVal")
+	side := func(v ssa.Value) (hasOld, hasNew bool, projection string) {
+		for x := range core.SliceShallow(v) {
+			switch y := x.(type) {
+			case *ssa.FieldAddr:
+				switch core.FieldOf(y) {
+				case oldF:
+					hasOld = true
+				case newF:
+					hasNew = true
+				default:
+					projection = "field " + core.FieldOf(y).Name()
+				}
+			case *ssa.Field:
+				projection = "field " + core.FieldOf(y).Name()
+			case *ssa.Call:
+				if core.BuiltinCallName(y) == "" {
+					projection = "call of " + objName(core.CalleeObj(y))
+				}
+			case *ssa.Index, *ssa.IndexAddr, *ssa.Lookup, *ssa.Slice:
+				projection = "element or sub-slice"
+			case *ssa.Phi:
+				projection = "a choice between values"
+			}
+		}
+		return
+	}
+	m := 0
+	for _, b := range fn.Blocks {
+		for _, in := range b.Instrs {
+			var ops []ssa.Value
+			switch x := in.(type) {
+			case *ssa.BinOp:
+				if x.Op == token.EQL || x.Op == token.NEQ {
+					ops = []ssa.Value{x.X, x.Y}
+				}
+			case *ssa.Call:
+				if core.BuiltinCallName(x) == "" && len(x.Call.Args) == 2 {
+					ops = x.Call.Args
+				}
+			}
+			if len(ops) != 2 {
+				continue
+			}
+			o0, n0, p0 := side(ops[0])
+			o1, n1, p1 := side(ops[1])
+			if !((o0 && n1 && !n0 && !o1) || (n0 && o1 && !o0 && !n1)) {
+				continue
+			}
+			m++
+			why := p0
+			if why == "" {
+				why = p1
+			}
+			c.Check("IsValuable:whole-values#"+string(rune('a'+m-1)), "comparison-shape", why == "", in.Pos(), "old and new value are compared whole: %s", orOK(why))
+		}
+	}
+	c.Floor("IsValuable/old-new-comparisons", m, 5)
 }
